@@ -17,6 +17,11 @@
 //!                with flag A.  The combined status (max over the columns) is Update iff A=1 (and nothing stronger
 //!                is pending), else Rescore - which is what the model's single EEdit computes.
 //!   restart C
+//!   cfg          Nucleo::update_config with the configuration the Nucleo was created with (the properties assume a fixed
+//!                matcher configuration): must change nothing, but takes the worker lock.  Not called while a tick is in
+//!                progress.  Only generated where the protocol model says the lock is free; the call is made on a
+//!                controlled thread so that a call that does not return within the scheduler's step timeout is reported
+//!                as `BLOCKED` (the rest of the history is then not replayed) instead of hanging the harness
 //!   tick Z [as]  begin Nucleo::tick on the UI thread (timeout 0 if Z=0 else 10 s); parks at tick.begin.  With `as` the UI
 //!                thread also parks at tick.after_spawn (directly after ThreadPool::spawn; the protocol model has no state
 //!                change there), otherwise it runs through that site
@@ -44,6 +49,8 @@ use std::sync::Arc;
 pub const NCOLS: usize = 2;
 /// `obs` reports Snapshot::get_item(i) for i < GET_ITEMS (g=...: the item's data, `-` for None)
 pub const GET_ITEMS: u32 = 8;
+/// the matcher configuration of the Nucleo under test; `cfg` hands the same value to Nucleo::update_config
+const CONFIG: Config = Config::DEFAULT;
 /// `utb`: how long the UI thread gets to reach another yield point before it counts as blocked
 const BLOCK_WAIT_MS: u64 = 80;
 /// pattern pool: (column 0 text, column 1 text); ids 0..=6 are the one-column pool of the earlier harness
@@ -236,7 +243,7 @@ pub fn run(file: &str) {
         sched::set_global(Some(run_ctl.clone()));
         let runner = Foreign { ctl: run_ctl };
         let mut nucleo: Box<Nucleo<u64>> = Box::new(Nucleo::new(
-            Config::DEFAULT,
+            CONFIG,
             Arc::new(move || {
                 n2.fetch_add(1, Ordering::SeqCst);
                 inj_notified();
@@ -367,6 +374,30 @@ pub fn run(file: &str) {
                         nucleo.restart(p[1] == "1");
                     }
                     obs.push("-".into());
+                }
+                "cfg" => {
+                    if ui.is_none() {
+                        let ptr = Ptr(nptr);
+                        let mut th = sched::spawn(vec![], move || {
+                            let ptr = ptr;
+                            unsafe { (*ptr.0).update_config(CONFIG) };
+                            "-".to_string()
+                        });
+                        // update_config has no yield point: it returns, or it is stuck on the worker lock
+                        match th.step() {
+                            St::Finished(r) => {
+                                th.finish();
+                                obs.push(r);
+                            }
+                            s => {
+                                // treated like a tick in progress: the wind-down releases the run and joins the thread
+                                obs.push(show(&s));
+                                ui = Some(th);
+                            }
+                        }
+                    } else {
+                        obs.push("-".into());
+                    }
                 }
                 "tick" => {
                     norun = false;
